@@ -196,6 +196,20 @@ func c05ExpectedFile(pkg *packages.Package, sf *ast.File, src string) []c05Verdi
 				}
 			}
 			if target == nil {
+				// the documented idiom for packages named by annotations only:
+				// import _ "path" binds the package under its declared name
+				n := 0
+				for _, im := range imps {
+					if im.p != nil && im.alias == "_" && im.p.Name() == q {
+						target = im.p
+						n++
+					}
+				}
+				if n > 1 {
+					target = nil
+				}
+			}
+			if target == nil {
 				// statement and implementation agree only when no import could
 				// plausibly carry the name: shapes in between are left open
 				for _, im := range imps {
@@ -858,6 +872,18 @@ func c05Program(rt *rapid.T) (c05Case, map[string]int) {
 		}
 		c.Sources["impl/z_last.go"] = fmt.Sprintf("package impl\n\n// @implements %s.I0\ntype Z0 struct{}\n\n// @implements &%s.Sealed\ntype Z1 struct{}\n", qn, qn)
 		classes["file without the import uses the qualifier"]++
+	}
+	// a file that imports the interface package for its annotations only: import _ "path"
+	// (the idiom the documentation recommends); the qualifier is the declared name
+	if g.chance("blankImportFile", 35) {
+		var fb strings.Builder
+		fmt.Fprintf(&fb, "package impl\n\nimport _ \"vf.test/m/%s\"\n\n", ipSpec.dir)
+		fmt.Fprintf(&fb, "// @implements %s.LitAl\ntype B0 struct{}\n\nfunc (B0) LitM() int { return 0 }\n\n", ipSpec.name)
+		fmt.Fprintf(&fb, "// @implements &%s.I0\ntype B1 struct{}\n\n", ipSpec.name)
+		fmt.Fprintf(&fb, "// @implements %s.Missing\ntype B2 struct{}\n\n", ipSpec.name)
+		fmt.Fprintf(&fb, "// @implements %s.Sealed\ntype B3 struct{}\n\nfunc (B3) Open() {}\n", ipSpec.name)
+		c.Sources["impl/m_blank.go"] = fb.String()
+		classes["file binding the interface package by a blank import"]++
 	}
 	if ipSpec.name != ipSpec.dir[strings.LastIndex(ipSpec.dir, "/")+1:] {
 		classes["interface package name differs from its directory"]++
